@@ -713,8 +713,12 @@ func genInclCase(g *RNG, r *Run) *inclCase {
 			return "fn", "assigned-variable:" + name
 		case k < 76:
 			if strings.HasSuffix(name, ".html") {
-				c.Env["inc_base"] = VStr(strings.TrimSuffix(name, ".html"))
-				return g.Pick([]string{"inc_base | append: \".html\"", "inc_base | append: inc_ext"}), "filtered"
+				base := strings.TrimSuffix(name, ".html")
+				c.Env["inc_base"] = VStr(base)
+				// filtered arguments, including ones that begin and end with a string literal of the same quote
+				return g.Pick([]string{"inc_base | append: \".html\"", "inc_base | append: inc_ext",
+					"\"" + base + "\" | append: \".html\"", "'" + base + "' | append: '.html'", "\".html\" | prepend: \"" + base + "\"",
+					"\"" + base + "\" | append: inc_ext", "\"" + base + "\" | append: '.html'", "\"" + name + "\" | strip | append: \"\""}), "filtered"
 			}
 			return "\"" + name + "\"", "literal"
 		case k < 80:
